@@ -9,7 +9,8 @@ RULE = ("multi-channel histories (2 channels in quick, 4 in thorough; 1-3 / 1-6 
         "customer message equals an atom of any earlier message or of the parameters (channel id and balances exempt); "
         "duplicates inside one message are exactly the linked response scalars the protocol creates on purpose; no secret "
         "scalar held in the customer state at sending time (blinding factors, unrevealed nonces, revocation secrets) occurs "
-        "in any message so far; every closing signature is a re-randomisation (by the served draw) of the stored one. "
+        "in any message so far; every closing signature is a re-randomisation (by the served draw) of the stored one; every "
+        "terminal close is repeated with a zero first draw (fault injection: still nothing the merchant has seen may be sent). "
         "Non-trivial = every customer message; distinct = distinct message digest.")
 TRUSTED = ["theorems C14_* (per-atom injectivity in a fresh draw) over an arbitrary field; correspondence ops: the customer / "
            "merchant API; randomness recovery of C01 / C02 shows every masking value is its own draw"]
@@ -78,7 +79,7 @@ class View:
         for i, kind, a in atoms_of(name, hexs):
             self.seen.setdefault(a, label)
 
-    def customer_msg(self, label, name, hexs, secrets, keep=True, exempt=()):
+    def customer_msg(self, label, name, hexs, secrets, keep=True, exempt=(), within=True):
         run = self.run
         atoms = atoms_of(name, hexs)
         case = {"message": label, "type": name, "atoms": len(atoms)}
@@ -90,8 +91,9 @@ class View:
         n_dup_groups = len(dups)
         exp = {"EstablishProof": 4, "PayProof": 5}.get(name, 0)
         run.check_monitor("in_message_duplicates_are_only_the_linked_responses", n_dup_groups == exp, dict(case, duplicate_groups=dups))
-        gd = group_element_duplicates(atoms)
-        run.check_monitor("no_group_element_twice_in_one_message", not gd, dict(case, duplicate_groups=gd[:5]))
+        if within:      # not for the fault-injected zero draw: there the unchanged code sends the identity pair (twice the identity)
+            gd = group_element_duplicates(atoms)
+            run.check_monitor("no_group_element_twice_in_one_message", not gd, dict(case, duplicate_groups=gd[:5]))
         if keep:
             for i, kind, a in atoms:
                 self.seen.setdefault(a, label)
@@ -181,3 +183,13 @@ def terminal_close(run, h, rng, view, M, stage, hexs, label):
     ok = h.call("g1lin", stored[0], sc(rho))[0] == cm[:96] and h.call("g1lin", stored[1], sc(rho))[0] == cm[96:192]
     run.check_corr("corr.C14.closing_signature_is_rerandomisation_by_the_served_draw", ok, {"label": label})
     run.check_monitor("closing_signature_differs_from_stored_signature", cm[:96] != stored[0], {"label": label})
+    # the same close when the generator's first answer is the zero scalar (a fault at exactly that draw): whatever the code
+    # does with it - draw again, or send the identity pair, which the merchant will refuse - it must not send the signature as
+    # stored, which the merchant has seen
+    h.rng(rng.randrange(2 ** 31), [0])
+    t0 = h.try_call("close", stage, hexs, M.handle)
+    run.count("close with a zero first draw: %s" % ("message" if t0 else "no message"))
+    if t0:
+        view.customer_msg(label + " closing message (zero first draw)", "ClosingMessage", t0[0], secrets_of(stage, hexs), keep=False, within=False)
+        run.check_monitor("closing_signature_differs_from_stored_signature", t0[0][:96] != stored[0] and t0[0][96:192] != stored[1],
+                          {"label": label, "first_draw": 0})
